@@ -278,6 +278,11 @@ class Indentation(afmformats.AFMForceDistance):
             # Note: if `fitter.fp["success"]` is `False`, then
             # the `fit_residuals` and `fit_curve` are `nan`.
             fitter.fit()
+            if not fitter.fp["success"]:
+                # Do not report the results of earlier passes of an
+                # unsuccessful multi-pass fit.
+                for key in ["params_fitted", "chi_sqr", "xmin", "xmax"]:
+                    fitter.fp.pop(key, None)
             self["fit"] = fitter.fit_curve
             self["fit residuals"] = fitter.fit_residuals
             self["fit range"] = fitter.fit_range
